@@ -702,3 +702,90 @@ def flags_consumed(ctx, P, funcs=None, rule="OPTION-CONSUMED"):
 
 
 FLAG_UNUSED_OK = {}
+
+
+NAME_CLASSES = {
+    # python class -> (libtskit function prefixes, struct whose members the accessors expose)
+    "Tree": (("tsk_tree_",), "tsk_tree_t"),
+    "TreeSequence": (("tsk_treeseq_",), "tsk_treeseq_t"),
+    "Variant": (("tsk_variant_",), "tsk_variant_t"),
+    "TableCollection": (("tsk_table_collection_",), "tsk_table_collection_t"),
+    "IdentitySegments": (("tsk_identity_segments_",), "tsk_identity_segments_t"),
+    "LdCalculator": (("tsk_ld_calc_",), "tsk_ld_calc_t"),
+}
+for _t in ("individual", "node", "edge", "migration", "site", "mutation", "population", "provenance"):
+    NAME_CLASSES[_t.capitalize() + "Table"] = (("tsk_%s_table_" % _t,), "tsk_%s_table_t" % _t)
+TABLE_CLASSES = tuple(k for k in NAME_CLASSES if k.endswith("Table"))
+
+
+# python name -> the libtskit operations the module composes it from instead of the same-named function (confirmed by reading)
+NAME_ALTERNATES = {"set_columns": ("clear", "append_columns")}
+
+
+def name_agreement(ctx, P, classes=("Tree",), rule="MODULE-NAME", floor=20):
+    """A method / attribute registered as `get_X`, `X` or `X_array` whose name is also the name of a libtskit accessor
+    (tsk_<class>_get_X / tsk_<class>_X) or of a member of the wrapped struct must reach that accessor / member."""
+    ctx.rule(rule, "every method-table / getset row of the wrapped classes whose Python name names a libtskit function "
+                   "(`tsk_tree_get_X`, `tsk_tree_X`) or a member of the wrapped struct is implemented by a C function that calls "
+                   "that function or reads that member (directly or through one static helper): a row wired to a sibling's "
+                   "implementation returns a different view of the tree")
+    tu = P.tus["module"]
+    meths, getsets = modinfo.method_tables(tu)
+    libfuncs = set()
+    for k in P.tus:
+        if k != "module":
+            libfuncs |= set(P.tus[k].funcs)
+    n = 0
+    for cls in classes:
+        prefixes, struct = NAME_CLASSES[cls]
+        members = {f[0] for f in (P.structs.get(struct) or [])}
+        if not members:
+            ctx.need(False, "struct %s not found" % struct)
+        rows = [(s, f) for s, f in meths.get(cls + "_methods", [])]
+        rows += [(s, g) for s, g, _ in getsets.get(cls + "_getsetters", []) if g]
+        ctx.need(bool(rows), "method table %s_methods not found" % cls)
+        for pyname, cfunc in rows:
+            t = re.sub(r"^get_", "", pyname)
+            t = re.sub(r"_array$", "", t)
+            exact = {p + pyname for p in prefixes} & libfuncs
+            cands = set()
+            for p in prefixes:
+                cands |= {p + "get_" + t, p + t, p + t + "_from", p + t + "f"}
+            exact |= {e + "f" for e in exact} & libfuncs          # FILE* variants (dumpf / loadf)
+            fcands = exact or (cands & libfuncs)
+            alt = NAME_ALTERNATES.get(pyname)
+            mcand = t if t in members else None
+            if not fcands and not mcand:
+                continue
+            fn = tu.funcs.get(cfunc)
+            if fn is None:
+                continue
+            bodies, todo = [], [(fn, 0)]
+            while todo:
+                b, d = todo.pop()
+                if b in bodies:
+                    continue
+                bodies.append(b)
+                if d < 3:
+                    for x in walk(b.body):
+                        if x.k == "DeclRefExpr" and x.refkind == "FunctionDecl":
+                            h = tu.funcs.get(x.ref or "")
+                            if h is not None and h.static:
+                                todo.append((h, d + 1))
+            called, touched = set(), set()
+            for b in bodies:
+                for x in walk(b.body):
+                    if x.k == "DeclRefExpr" and x.refkind == "FunctionDecl" and x.ref:
+                        called.add(x.ref)       # called, or handed to a generic helper as the method to run
+                    elif x.k == "MemberExpr" and x.name:
+                        touched.add(x.name)
+            ok = bool(fcands & called) or (mcand is not None and mcand in touched) or (t in touched and not (fcands & called))
+            if not ok and alt and fcands:
+                ok = all(any(f.replace(pyname, a) in called for f in fcands) for a in alt)
+            n += 1
+            want = sorted(fcands) + (["%s.%s" % (struct, mcand)] if mcand else [])
+            other = sorted((called & libfuncs) | (touched & members - {"tree_sequence", "tables"}))[:6]
+            ctx.ob(rule, "%s.%s" % (cls, pyname), ok, tu.loc(fn.node),
+                   "%s reaches %s" % (cfunc, want) if ok else "%s is registered as `%s` but never reaches %s (it uses %s)" % (cfunc, pyname, want, other))
+    ctx.floor(rule, floor)
+    return n
